@@ -349,6 +349,13 @@ function makeRProxy(R, st, ctx) {
         const f = t[k]
         wrapped[k] = (...a) => {
           onPathCall(ctx, st, k, a)
+          if (k === 'l' && !ctx.quiet) ctx.log.push(`R.l ${st.tag} ${a[1]} ${enc(a[2])}`)
+          if (k === 'v' && a[0]) {
+            // the binding the element holds now: what a delivered event must be handled with
+            let m = ctx.evBindings.get(a[0])
+            if (!m) ctx.evBindings.set(a[0], (m = new Map()))
+            m.set(`${a[1]}:${a[3] ? 1 : 0}${a[4] ? 1 : 0}${a[5] ? 1 : 0}`, { ev: a[1], value: a[2], path: a[7] })
+          }
           const el = a[0]
           const before = k === 'r' && el && el._$modelBindingListeners ? el._$modelBindingListeners[a[1]] : undefined
           const ret = f.apply(t, a)
@@ -473,6 +480,13 @@ function wrapContent(content, tag, ctx) {
         ctx.wrapperSeq += 1
         st = { tag: `${tag}#${ctx.wrapperSeq}`, prevData: undefined, curData: undefined, proxy: null, comp: tag }
         ctx.byWrapper.set(R, st)
+        // events are delivered to the harness, never to user code
+        if (typeof R.setEventListenerWrapper === 'function') {
+          R.setEventListenerWrapper((caller, ev, f, path) => {
+            ctx.delivered.push({ f, path })
+            return undefined
+          })
+        }
       }
       st.curData = D
       if (!ctx.quiet) {
@@ -570,7 +584,8 @@ function ser(n) {
       // a slot value that is undefined reads the same as one that was never set
       const sv = {}
       // (key order is insertion history, not content)
-      for (const k of Object.keys(n._$slotValues).sort()) if (n._$slotValues[k] !== undefined) sv[k] = n._$slotValues[k]
+      // (the runtime keeps the old value when old === new, so -0 and 0 are one value here)
+      for (const k of Object.keys(n._$slotValues).sort()) if (n._$slotValues[k] !== undefined) sv[k] = Object.is(n._$slotValues[k], -0) ? 0 : n._$slotValues[k]
       if (Object.keys(sv).length) o.slotValues = sv
     }
   }
@@ -716,6 +731,8 @@ function newCtx(quiet) {
     c11: null,
     expectNoPath: false,
     scriptValues: null,
+    evBindings: new WeakMap(),
+    delivered: [],
   }
 }
 
@@ -753,6 +770,47 @@ function collectModelListeners(root) {
   }
   walk(root.getShadowRoot())
   return out
+}
+// Deliver one event to every listener the generated code registered in the root's shadow tree and
+// check that the handler and the l-value path that reach the event listener wrapper are the ones the
+// element was last bound with (C11: the path given for an event binding names what the expression reads).
+function checkEventDelivery(ctx, root, violation) {
+  const walk = (n) => {
+    if (n instanceof ge.TextNode) return
+    const et = n._$eventTarget
+    const rec = ctx.evBindings.get(n)
+    if (et && rec) {
+      for (const tbl of [et.listeners, et.captureListeners]) {
+        if (!tbl) continue
+        for (const evName of Object.keys(tbl)) {
+          const arr = tbl[evName].funcArr._$arr
+          if (!arr) continue
+          for (const x of arr.slice()) {
+            ctx.delivered = []
+            try {
+              x.f.call(n, { type: evName, target: n, currentTarget: n, detail: {}, mark: {} })
+            } catch (e) {
+              continue
+            }
+            for (const d of ctx.delivered) {
+              bump(ctx, 'probe.c11.event_delivery_checked')
+              const cands = [...rec.values()].filter((r) => r.ev === evName)
+              if (!cands.length) continue
+              const ok = cands.some((r) => (typeof r.value === 'function' ? d.f === r.value : true) && enc(d.path === undefined ? null : d.path) === enc(r.path === undefined ? null : r.path))
+              if (!ok) {
+                const r = cands[0]
+                violation('C11', 'event_delivered_with_other_path', `<${n.is}> ${evName}: the element was last bound with handler ${typeof r.value === 'function' ? r.value.__id || 'function' : enc(r.value)} and path ${enc(r.path)}, but an event is delivered to handler ${typeof d.f === 'function' ? d.f.__id || d.f.name || 'function' : enc(d.f)} with path ${enc(d.path)}`)
+                return
+              }
+            }
+          }
+        }
+      }
+    }
+    n.childNodes.forEach(walk)
+  }
+  walk(root.getShadowRoot())
+  ctx.delivered = []
 }
 function collectChildren(root) {
   const out = []
@@ -997,6 +1055,7 @@ function runWorld(job) {
     if (events.length) bump(ctx, 'step.flushes_compared_equal')
     // C11 over the history: every live model listener still addresses what its element displays
     checkLiveModelPaths()
+    checkEventDelivery(ctx, root, violation)
   }
 
   const checkLiveModelPaths = () => {
@@ -1033,6 +1092,7 @@ function runWorld(job) {
     }
   }
   checkLiveModelPaths()
+  checkEventDelivery(ctx, root, violation)
 
   // schedule ----------------------------------------------------------------------------------
   const ops = job.schedule || []
